@@ -424,3 +424,63 @@ def t_add_event_keys_distinct():
     obl.append({"name": QA + "[keys-distinct]/cover:paths", "pc": [], "goal": z3.BoolVal(n >= 2), "kind": "cover"})
     info = {"function": QA + " (iterable of the registration loop)", "source_sha": get_src_().source_hash(QA), "where": get_src_().where(QA), "paths": n, "assumptions": sorted(ex.used_assumptions)}
     return {"obligations": obl, "info": [info]}
+
+
+# ----------------------------------------------------------------------------- Simulator.__init__: establishes the empty registries and the nine-occasion hook table (C13, C18)
+QI = "Simulator.__init__"
+OCCASIONS = ["order_before", "order_after", "cancel_before", "cancel_after", "execution_after", "session_before", "session_after", "market_before", "market_after"]
+REG_LISTS = ["events", "event_hooks", "agents", "high_frequency_agents", "normal_frequency_agents", "markets", "sessions"]
+REG_DICTS = ["id2event", "name2event", "id2agent", "name2agent", "agents_group_name2agent", "id2market", "name2market", "markets_group_name2market", "id2session", "name2session"]
+REG_COUNTERS = ["n_events", "n_agents", "n_markets", "n_sessions"]
+
+
+@task(QI + "[registries]", props=["C13", "C18"], functions=[QI], replay="hooks")
+def t_simulator_init():
+    """the constructor (all statements except the creation of the fundamentals generator, whose class is a parameter) leaves: counters 0, every registry list and dict empty and a separate
+    new object, no current session, and a hook table with exactly the nine occasions, each with its own empty bucket table"""
+    fn = get_src_().funcs[QI][0]
+
+    def is_fund(s_):
+        return any(isinstance(n_, _ast.Attribute) and n_.attr == "fundamentals" and isinstance(n_.ctx, _ast.Store) for n_ in _ast.walk(s_))
+    stmts = [s_ for s_ in fn.body if not (isinstance(s_, _ast.Expr) and isinstance(s_.value, _ast.Constant)) and not is_fund(s_)]
+    if len(stmts) != len(fn.body) - 2:
+        raise Unsupported("anchor-lost: Simulator.__init__ is no longer docstring + registries + one fundamentals statement")
+    sim = sym_obj("Simulator", "sim"); prng = sym_obj("Random", "prng")
+    obl_all = []; n = 0; info_ass = set()
+    for with_logger in (False, True):
+        lg = V(("opt", ("ref", "Logger")), z3.Const("logger_arg", REF), none=z3.BoolVal(not with_logger))
+        env = {"self": sim, "prng": prng, "logger": lg}
+        specs = {("m", "Logger", "_set_simulator"): (lambda ex, st, recv, pos, kw, node: [(st, NONE)])}       # stores a back reference in the logger only
+        ex, st0, outs, obl = run_block(QI, stmts, env, specs=specs, label=QI + "[registries]")
+        info_ass |= set(ex.used_assumptions)
+        for s1, kind, val in outs:
+            if kind == "raise":
+                s1.oblige(f"no-raise:{val[0]}@{val[1]}", z3.BoolVal(False), "no-raise"); continue
+            n += 1
+            R = lambda f: s1.read(sim, f)
+            for c in REG_COUNTERS:
+                s1.oblige(f"post:{c} = 0", R(c).term == 0, "post")
+            objs = []
+            for l in REG_LISTS:
+                t = R(l).term; objs.append(t)
+                s1.oblige(f"post:registry list `{l}` is empty and new", z3.And(s1.length(t) == 0, z3.Not(st0.is_alloc(t))), "post")
+            for dn in REG_DICTS:
+                dv = R(dn); objs.append(dv.term)
+                k = z3.Const("k_si_" + dn, sort_of(dv.ty[1]))
+                s1.oblige(f"post:registry dict `{dn}` is empty and new", z3.And(z3.ForAll([k], z3.Not(z3.Select(s1.dict_dom(dv), k))), z3.Not(st0.is_alloc(dv.term))), "post")
+            ed = R("events_dict"); objs.append(ed.term)
+            name = z3.Const("occ_si", z3.StringSort())
+            s1.oblige("post:C13 the hook table has exactly the nine occasions",
+                      z3.ForAll([name], z3.Select(s1.dict_dom(ed), name) == z3.Or(*[name == z3.StringVal(o) for o in OCCASIONS])), "post")
+            tau = z3.Const("tau_si", OptInt)
+            for o in OCCASIONS:
+                inner = V(ed.ty[2], z3.Select(s1.dict_val(ed), z3.StringVal(o))); objs.append(inner.term)
+                s1.oblige(f"post:C13 occasion `{o}` starts with an empty bucket table of its own", z3.And(z3.ForAll([tau], z3.Not(z3.Select(s1.dict_dom(inner), tau))), z3.Not(st0.is_alloc(inner.term))), "post")
+            s1.oblige("post:all registries are pairwise separate objects", z3.Distinct(*objs), "post")
+            s1.oblige("post:no current session; generator and logger stored as given",
+                      z3.And(R("current_session").none, R("_prng").term == prng.term, R("logger").none == lg.none, z3.Implies(z3.Not(lg.none), R("logger").term == lg.term)), "post")
+        obl_all += obl
+    obl_all.append({"name": QI + "[registries]/cover:paths", "pc": [], "goal": z3.BoolVal(n >= 2), "kind": "cover"})
+    info = {"function": QI + " (all statements but the creation of the fundamentals generator)", "source_sha": get_src_().source_hash(QI), "where": get_src_().where(QI), "paths": n,
+            "assumptions": sorted(info_ass) + ["`self.fundamentals = fundamental_class(prng=random.Random(self._prng.randint(0, 2**31)))` is not executed symbolically (the class is a parameter)"]}
+    return {"obligations": obl_all, "info": [info]}
